@@ -88,8 +88,10 @@ def badger_young_case(i):
     """Badger keeps deadlines in whole seconds: an Event written just before a second boundary must still live for its
     whole ttl (1 s here). Created 850 ms into a second, probed 400 ms later (wall-clock marks make the run conclusive)."""
     e = EVENT_KEYS[i % len(EVENT_KEYS)]
-    lines = [hist.cfg_line("badger", eventsttl=1), "alignsec %d" % [850, 920, 700][i % 3], "mark c",
-             "create %s %s" % (hx(e), hx(b"v1")), "rev", "sleep %d" % [400, 250, 500][i % 3], "echo young",
+    # (written late in a second and probed across the boundary; and written EARLY in a second and probed just after the next
+    # boundary, still younger than its ttl: a deadline rounded to the nearest second would have passed)
+    lines = [hist.cfg_line("badger", eventsttl=1), "alignsec %d" % [850, 100, 920, 60, 700][i % 5], "mark c",
+             "create %s %s" % (hx(e), hx(b"v1")), "rev", "sleep %d" % [400, 905, 250, 945, 500][i % 5], "echo young",
              "get %s 0" % hx(e), "create %s %s" % (hx(e), hx(b"dup")), "rev", "since c",
              "sleep 2300", "echo after-ttl", "get %s 0" % hx(e), "create %s %s" % (hx(e), hx(b"again")), "rev"]
     return core.Case("backend", lines, {"engine": "badger", "native": True, "byoung": True, "ev": [e], "look": []}, compare=lambda op: False)
@@ -152,7 +154,7 @@ def badger_young_oracle(case):
         if t[0] == "echo":
             mode = t[1]
             continue
-        if mode == "young" and since is not None and since < 950:
+        if mode == "young" and since is not None and since < 985:
             if t[0] == "get" and len(o) >= 3 and o[2] == "-":
                 return ("line %d: an Event created %d ms ago at most (ttl 1000 ms) reads absent on Badger: %s" % (i + 1, since, out), "young-event-removed")
             if t[0] == "create" and o[1] == "ok":
@@ -782,7 +784,7 @@ def check(rep, tier, seed):
     # the in-memory engine's own ttl timers, at the engine boundary (model: KB.MemTTL, theorems: KB.Props.C17Mem)
     cases += [engine_ttl_case(seed, i, ENGINE_TTL_ENGINES[i % 2], tier) for i in range(2 if tier == "quick" else 20)]
     cases += [renew_case(seed, i, ["update", "recreate"][i % 2]) for i in range(2 if tier == "quick" else 24)]
-    cases += [badger_young_case(i) for i in range(2 if tier == "quick" else 12)]
+    cases += [badger_young_case(i) for i in range(4 if tier == "quick" else 15)]
     cases += [native_updated_case(i, ["badger", "memkv", "metrics-badger"][i % 3]) for i in range(3 if tier == "quick" else 18)]
     cases += [hostile_sibling_case(i) for i in range(2 if tier == "quick" else 9)]
     cases += [straddle_case(i) for i in range(2 if tier == "quick" else 8)]
